@@ -319,6 +319,13 @@ func init() {
 		}
 		sb.WriteString(atext)
 
+		// context counters of the parser (p.<field>++ / p.<field>--) and whether they are balanced
+		ctext, err := c03counters(pp)
+		if err != nil {
+			return "", err
+		}
+		sb.WriteString(ctext)
+
 		// lexer/token.go
 		_, lf, err := ParseDir(repo, "lexer")
 		if err != nil {
@@ -621,4 +628,70 @@ func c03asserts(repo string) (string, error) {
 	}
 	sb.WriteString("Definition split_args_init : list string := [" + strings.Join(initArgs, "; ") + "].\n")
 	return sb.String(), nil
+}
+
+// ---- context counters of the parser: every function that does p.<field>++ must do p.<field>--
+// the same number of times and must not return between the first increment and the last
+// decrement (source order), so that the counter has its old value after every complete construct.
+func c03counters(pp *c03pkg) (string, error) {
+	var rows []string
+	for _, n := range SortedNames(pp.files) {
+		for _, d := range pp.files[n].Decls {
+			fd, ok := d.(*ast.FuncDecl)
+			if !ok || fd.Body == nil {
+				continue
+			}
+			type cnt struct {
+				incs, decs        int
+				firstInc, lastDec token.Pos
+			}
+			fields := map[string]*cnt{}
+			var order []string
+			ast.Inspect(fd.Body, func(nd ast.Node) bool {
+				st, ok := nd.(*ast.IncDecStmt)
+				if !ok {
+					return true
+				}
+				sel, ok := st.X.(*ast.SelectorExpr)
+				if !ok {
+					return true
+				}
+				if id, ok := sel.X.(*ast.Ident); !ok || id.Name != "p" {
+					return true
+				}
+				c := fields[sel.Sel.Name]
+				if c == nil {
+					c = &cnt{}
+					fields[sel.Sel.Name] = c
+					order = append(order, sel.Sel.Name)
+				}
+				if st.Tok == token.INC {
+					c.incs++
+					if c.firstInc == 0 {
+						c.firstInc = st.Pos()
+					}
+				} else {
+					c.decs++
+					c.lastDec = st.Pos()
+				}
+				return true
+			})
+			for _, f := range order {
+				c := fields[f]
+				between := 0
+				ast.Inspect(fd.Body, func(nd ast.Node) bool {
+					if r, ok := nd.(*ast.ReturnStmt); ok && c.firstInc != 0 && r.Pos() > c.firstInc && (c.lastDec == 0 || r.Pos() < c.lastDec) {
+						between++
+					}
+					return true
+				})
+				rows = append(rows, fmt.Sprintf("  mkCounter %s %s %d %d %d", CoqString(fd.Name.Name), CoqString(f), c.incs, c.decs, between))
+			}
+		}
+	}
+	if len(rows) == 0 {
+		return "", fmt.Errorf("parser: no p.<field>++ context counter found (loopDepth expected)")
+	}
+	return "Record counter_site : Type := mkCounter { c_func : string; c_field : string; c_incs : nat; c_decs : nat; c_returns_between : nat }.\n" +
+		"Definition counter_sites : list counter_site := [\n" + strings.Join(rows, ";\n") + "\n].\n", nil
 }
